@@ -12,7 +12,9 @@ import (
 func SelfTestFreelist() {
 	for backend := 0; backend < 2; backend++ {
 		f, _ := zzNew(backend)
-		f.Init(common.Pgids{3, 4, 5, 6, 7, 9, 12, 13, 18})
+		// span sizes are chosen so that no Allocate below has two equally good candidates: the hashmap
+		// backend picks "any" span of a size class by map iteration, which natively is random
+		f.Init(common.Pgids{3, 4, 5, 6, 7, 9, 10, 18})
 		zz.Digest("alloc3", uint64(f.Allocate(100, 3)))
 		zz.Digest("alloc1", uint64(f.Allocate(100, 1)))
 		zz.Digest("alloc5-none", uint64(f.Allocate(100, 5)))
